@@ -77,6 +77,33 @@ def apply_diff(base, diff):
     return out
 
 
+def info_iterators_probe(ctx, FORB):
+    """the info-carrying iterators are checked entry points as well (the model covers the default exfiltrator):
+    constructor and add_signal with WithRawSiginfo / WithOrigin for every forbidden signal, negative and too large
+    numbers (refused by a catchable panic), numbers the OS refuses (error) - in every case the disposition of
+    the signal is what it was and nothing is left open"""
+    nums = sorted(set(FORB)) + [-1, -7, 128, 200, 100000, 0, 32, 65, 127]
+    rc, out, _ = sh([common.bin_path('p_c14x')] + [str(n) for n in nums], timeout=300)
+    rows = [l.split() for l in out.split('\n') if l.startswith('X ')]
+    ctx.correspondence('info-carrying iterator entry points probe ran (p_c14x)', rc == 0 and len(rows) == 4 * len(nums), out[-400:] if rc else None)
+    for r in rows:
+        if len(r) != 7:
+            continue
+        _, exf, entry, sig, outcome, same, leaked = r
+        sig = int(sig)
+        ctx.evaluations += 1
+        ctx.distinct.add(('c14x', exf, entry, sig))
+        want = 'panic' if (sig in FORB or sig < 0 or sig >= 128) else 'err'
+        name = '%s::%s(%d)' % ({'raw': 'SignalsInfo<WithRawSiginfo>', 'origin': 'SignalsInfo<WithOrigin>'}[exf], {'new': 'new', 'add': 'add_signal'}[entry], sig)
+        if not outcome.startswith(want) or same != '1' or leaked != '0':
+            ctx.violation({'entry': exf + '/' + entry, 'sig': sig},
+                          '%s: outcome %s (expected a %s), disposition of the signal %s, %s descriptors left open' % (
+                              name, outcome, 'catchable panic' if want == 'panic' else 'returned error', 'unchanged' if same == '1' else 'CHANGED', leaked),
+                          {'probe': 'p_c14x', 'row': r, 'replay': 'harness/target/debug/p_c14x %d' % sig})
+        else:
+            ctx.traces += 1
+
+
 def run(ctx, only=None):
     ctx.trusted_base = TB
     ctx.assumptions = ['signal numbers are c_int (the out-of-table clause of C14_checked assumes -2^31 <= sig < 2^31)',
@@ -87,7 +114,7 @@ def run(ctx, only=None):
                        'a valid descriptor is handed to pipe::register / register_raw; socketpair() succeeds',
                        'iterator front-ends with the default exfiltrator SignalOnly',
                        'single-threaded calls (mutual exclusion of concurrent registrations is C05/C18)']
-    if not ctx.harness(['p_c14']):
+    if not ctx.harness(['p_c14', 'p_c14x']):
         return
     ctx.translate(COMPONENTS)
     ctx.prove('props/C14.v')
@@ -95,6 +122,8 @@ def run(ctx, only=None):
     FORB = [consts[n] for n in ('SIGKILL', 'SIGSTOP', 'SIGILL', 'SIGFPE', 'SIGSEGV')]
     SA_NEED = consts['SA_SIGINFO'] | consts['SA_RESTART']
     probe = common.bin_path('p_c14')
+    if not only:
+        info_iterators_probe(ctx, FORB)
     nums = sweep(ctx)
     if only:
         cases = [tuple(only)]
